@@ -24,6 +24,8 @@ def run_passes(rep, binary, passes, total_budget_s):
         budget = min(ps.get("budget_s", left), left)
         try:
             por = ps.get("por", ps.get("bound", -1) < 0)
+            if "por" in ps:
+                por = ps["por"]
             r = vlib.explore(binary, ps["harness"], ps.get("bound", -1), budget, cache=ps.get("cache", not por),
                              dev_bound=ps.get("dev_bound", -1), cfg=ps.get("cfg"), nshards=ps.get("nshards"), por=por)
         except vlib.EngineError as e:
